@@ -1057,8 +1057,8 @@ class PandasModelBase(
         on_a_set = set(op.on_a)
         for c in common_cols:
             if c not in on_a_set:
-                is_null = res[c].isnull()
-                res.loc[is_null, c] = res.loc[is_null, c + "_tmp_right_col"]
+                # left value, else right value (combine_first also reconciles the two column types)
+                res[c] = res[c].combine_first(res[c + "_tmp_right_col"])
                 res = res.drop(c + "_tmp_right_col", axis=1, inplace=False)
         self.drop_indices(res)
         return res
